@@ -179,7 +179,10 @@ impl<'a, BE: DecryptWriteBackend, I: ReadGlobalIndex> TreeArchiver<'a, BE, I> {
             ParentResult::Matched(p_id) if id == *p_id => {
                 debug!("unchanged tree: {}", path.display());
                 self.summary.dirs_unmodified += 1;
-                return Ok(id);
+                // the parent's tree blob may be gone (lost pack, index repaired): then it has to be stored again
+                if self.index.has_tree(&id) {
+                    return Ok(id);
+                }
             }
             ParentResult::NotFound => {
                 debug!("new       tree: {} {dirsize_bytes}", path.display());
